@@ -16,7 +16,7 @@ ASSUMPTIONS = ["models <= 8 tasks, <= 4 components"]
 LEVEL_TEXT = "Seeded exploration; component/task state relation evaluated on the live state at every phase of every step and on the state logs."
 LEVEL_NOTE = "Trusted: harness observers; sampling evidence only."
 PROBES = ["component_without_task", "component_multi_task", "component_mixed_progress", "component_finished",
-          "component_working_hidden_by_absence", "remove_runs", "reporting_calls_checked"]
+          "component_working_hidden_by_absence", "remove_runs", "reporting_calls_checked", "appended_project_checked"]
 
 
 def budget(tier):
@@ -32,6 +32,8 @@ def gen(rng, tier):
     if rng.random() < 0.4:
         focus["facilities"] = True
     spec = C.gen_edit(rng, C.maybe_from_json(rng, C.maybe_history(rng, C.forward_spec(rng, tier, focus), 0.3)))
+    if spec.get("history") is None and not spec["model"].get("comp_ctor_tasks") and rng.random() < 0.08:
+        spec["appended"] = rng.randint(1, 8)
     if rng.random() < 0.1 and not any(t.get("nf") for t in spec["model"]["tasks"]):
         spec["model"]["comp_ctor_tasks"] = True  # BaseComponent(targeted_task_list=[...]): the tasks do not know their component
         if spec.get("history") is None and rng.random() < 0.6:
@@ -44,6 +46,10 @@ def gen(rng, tier):
 
 
 def extra_candidates(spec):
+    if spec.get("appended") is not None:
+        c = dict(spec)
+        c.pop("appended")
+        yield c
     if spec.get("remove"):
         c = dict(spec)
         c.pop("remove")
@@ -180,6 +186,39 @@ def run(spec):
         o = D.call(lambda: tr.project.remove_absence_time_list())
         if o.ok:
             check_edited_logs(res, tr, [], op="remove_absence")
+    if spec.get("appended") is not None and tr.out.ok:
+        # a run saved in two phases and stitched together by the library (read phase 1, append phase 2): the states the stitched
+        # project holds stand in the same relation
+        from .. import build as B, scen
+        from .. import env
+        scen.setup_run(spec.get("seed", 0))
+        b2 = B.build(spec["model"], spec.get("ranks"))
+        p2 = b2.project
+        r1, o1 = scen.simulate(p2, dict(spec["cfg"], max_time=spec["appended"]), want_snap=False)
+        ok = o1.ok and D.call(lambda: p2.write_simple_json("mem:c14a.json")).ok
+        if ok:
+            r2, o2 = scen.simulate(p2, dict(spec["cfg"], init_state=False, init_log=True), want_snap=False)
+            ok = o2.ok and D.call(lambda: p2.write_simple_json("mem:c14b.json")).ok
+        if ok:
+            q = env.M.bp.BaseProject()
+            if D.call(lambda: q.read_simple_json("mem:c14a.json")).ok and D.call(lambda: q.append_project_log_from_simple_json("mem:c14b.json")).ok:
+                res.count("appended_project_checked")
+                st_ = Static(spec["model"])
+                tstate = {t.ID: int(t.state) for t in q.workflow.task_list}
+                for c in q.product.component_list:
+                    ts = [tstate[t] for t in st_.comp_tasks.get(c.ID, []) if t in tstate]
+                    cs = int(c.state)
+                    if len(ts) != len(st_.comp_tasks.get(c.ID, [])):
+                        continue
+                    if all(x == FINISHED for x in ts) != (cs == FINISHED):
+                        res.add("appended", "C14.after_append_log.finished_iff_all_tasks_finished",
+                                "after read_simple_json(phase 1) + append_project_log_from_simple_json(phase 2): component %s is %s, its tasks are %s"
+                                % (c.ID, SNAME.get(cs, cs), [SNAME.get(x, x) for x in ts]), None)
+                        break
+                    if any(x == WORKING for x in ts) and cs != WORKING:
+                        res.add("appended", "C14.after_append_log.task_working_component_not",
+                                "after read + append: component %s is %s although a task is WORKING" % (c.ID, SNAME.get(cs, cs)), None)
+                        break
     if tr.out.ok and not spec.get("edit") and not spec.get("remove"):
         # the finished logs themselves: entry by entry the component's log stands in the same relation to its tasks' logs
         check_edited_logs(res, tr, [], op="simulate")
